@@ -61,6 +61,7 @@ type callM struct {
 	cSeq     int
 	returned bool
 	placed   bool
+	bindDone bool // its completion callback (a BIND's) is running
 	ex       *expect
 }
 
@@ -116,14 +117,17 @@ type Model struct {
 	// for key K has RETURNED and no UNBIND for K was ever started, every BOUND call
 	// for K placed while all channels are READY (no balancer callback overlapping)
 	// goes to one and the same channel.
-	cBound     map[string]bool
-	cDropped   map[string]bool
-	cHome      map[string]int
-	coreSeq    int
-	degraded   bool
-	readingOut [2]bool // C07: readings of "last response" contradicted so far in this run
-	aggKnown   bool
-	pd         *donePending
+	cBound      map[string]bool
+	cDropped    map[string]bool
+	cHome       map[string]int
+	coreSeq     int
+	degraded    bool
+	cBinds      map[string]int
+	bindDones   int     // BIND completion callbacks currently running
+	bindOverlap bool    // ... and whether another one overlapped the running ones
+	readingOut  [2]bool // C07: readings of "last response" contradicted so far in this run
+	aggKnown    bool
+	pds         map[int]*donePending
 	// Coverage probes.
 	Probes map[string]int
 	hash   uint64
@@ -233,6 +237,16 @@ func (m *Model) vAlways(prop, rule, facts, msg string, op int) {
 	m.track = t
 }
 
+// vAlwaysOr reports like vAlways; in degraded runs it defers to v (which knows
+// which clauses stay judged there).
+func (m *Model) vAlwaysOr(degraded bool, prop, rule, facts, msg string, op int) {
+	if degraded {
+		m.v(prop, rule, facts, msg, op)
+		return
+	}
+	m.vAlways(prop, rule, facts, msg, op)
+}
+
 func (m *Model) allReady() bool {
 	if len(m.chans) == 0 {
 		return false
@@ -249,7 +263,7 @@ func (m *Model) allReady() bool {
 // invocation of a pick.
 func (m *Model) trackKeyedInvoke(c *Call, cm *callM) {
 	if m.cBound == nil {
-		m.cBound, m.cDropped, m.cHome = map[string]bool{}, map[string]bool{}, map[string]int{}
+		m.cBound, m.cDropped, m.cHome, m.cBinds = map[string]bool{}, map[string]bool{}, map[string]int{}, map[string]int{}
 	}
 	if c.NoGCP || m.cfg.ambiguous[c.MethodName] {
 		return // no key visible to the picker
@@ -715,7 +729,14 @@ func (m *Model) opEnd(ev Event) {
 	if len(m.pubs) > 0 && len(m.chans) > 0 {
 		last := m.pubs[len(m.pubs)-1]
 		if last.state != agg {
-			m.v("C04", "published-state-mismatch", "", fmt.Sprintf("last published state %v, pool aggregate %v (after %s sc%d->%v)", last.state, agg, o.kind, o.conn, o.state), ev.Op)
+			// balancer callbacks are serialized and only they change a connection's
+			// state or publish: the clause holds at the end of every callback whatever
+			// picks and completions run beside it (judged during bursts too)
+			facts := ""
+			if m.track && !m.degraded {
+				facts = "concurrent"
+			}
+			m.vAlwaysOr(m.degraded, "C04", "published-state-mismatch", facts, fmt.Sprintf("last published state %v, pool aggregate %v (after %s sc%d->%v)", last.state, agg, o.kind, o.conn, o.state), ev.Op)
 		}
 	}
 }
@@ -1137,6 +1158,11 @@ func (m *Model) doneInvoke(ev Event) {
 	if ch.inflight < 0 {
 		m.v("C02", "harness-negative-count", "", "model in-flight count negative (harness bug)", ev.Op)
 	}
+	if mm, ok := m.cfg.methods[c.MethodName]; ok && mm.cmd == cmdBind {
+		m.bindDones++
+		cm.bindDone = true
+		m.bindOverlap = m.bindDones > 1
+	}
 	now := ev.At
 	isDE := c.Outcome == OutClientDE || c.Outcome == OutServerDE
 	hasDL := c.HasDeadline
@@ -1173,15 +1199,27 @@ func (m *Model) doneInvoke(ev Event) {
 	if pd.must[0] != pd.must[1] {
 		m.probe("refresh_rule_readings_differ")
 	}
-	m.pd = pd
+	if m.pds == nil {
+		m.pds = map[int]*donePending{}
+	}
+	m.pds[c.ID] = pd
 }
 
 //go:norace
 func (m *Model) doneReturn(ev Event) {
 	c := m.s.calls[ev.Call]
 	cm := m.calls[ev.Call]
-	pd := m.pd
-	m.pd = nil
+	pd := m.pds[ev.Call]
+	delete(m.pds, ev.Call)
+	if cm != nil && cm.bindDone {
+		cm.bindDone = false
+		defer func() {
+			m.bindDones--
+			if m.bindDones == 0 {
+				m.bindOverlap = false
+			}
+		}()
+	}
 	if cm == nil || cm.ch < 0 || pd == nil {
 		return
 	}
@@ -1273,6 +1311,15 @@ func (m *Model) doneReturn(ev Event) {
 					for _, k := range keys {
 						if m.track && m.cBound != nil {
 							m.cBound[k] = true
+							// The first BIND completion for a key, with no other BIND
+							// completion overlapping it, decides the key's channel: the
+							// later BOUND calls are held to THAT channel, not merely to
+							// one and the same channel.
+							m.cBinds[k]++
+							if _, had := m.cHome[k]; m.cBinds[k] == 1 && !had && m.bindDones == 1 && !m.bindOverlap {
+								m.cHome[k] = cm.ch
+								m.probe("concurrent_home_fixed_by_bind")
+							}
 						}
 						if _, ok := m.keys[k]; !ok {
 							m.keys[k] = cm.ch
